@@ -7,7 +7,10 @@ RULE = ("algorithms::div with numerator and divisor lengths 1..12 independently 
         "padding on each, contents from the C03 adversarial constructions (n=q*d+r with extreme parts, (q+1)*d-delta, "
         "numerator windows equal to the divisor's leading limbs) and the limb alphabet product for lengths <=3; the "
         "specialised kernels inside their code-level preconditions; reciprocals at the first, last and middle d of "
-        "every one of the 256 table rows, row boundaries +-1, 2^63, 2^64-1, low 24/40 bits all ones or zero, "
+        "every one of the 256 table rows, row boundaries +-1, 2^63, 2^64-1, low 24/40 bits all ones or zero, and 48 (thorough 240) "
+        "random d in the first and last 2.3 % of every row (where a slightly wrong table entry is not absorbed by the Newton steps; "
+        "measured with a simulated reciprocal: of the 1536 perturbations +-1..3 of one entry 970 change no result at all on "
+        "4000 samples, 557 of the other 566 are caught), "
         "reciprocal_2 over d1 x d0 classes incl. 2^127 and 2^128-1; 2x1 and 3x2 at u=q*d+r with extreme q, r and u "
         "just below d*2^64; a case is one distinct call")
 B = 1 << 64
@@ -107,11 +110,21 @@ def scenarios(tier, rng):
         ds.update({lo, hi, (lo + hi) // 2, min(hi + 1, B - 1), max(lo - 1, 1 << 63), hi - 1, hi - (1 << 20), lo + 1})
         if not quick:
             ds.update({lo | ((1 << 24) - 1), lo | ((1 << 40) - 1), (lo + rng.getrandbits(55)), lo | (1 << 24), lo | (1 << 40)})
+    # a slightly wrong table entry is absorbed by the Newton steps except in a band of 1-2 % at one end of its row (which end
+    # depends on the sign of the error), and there only for some low-bit patterns: sample both bands of every row
+    band = set()
+    for row in range(256, 512):
+        lo = row << 55
+        for _ in range(12 if quick else 60):
+            band.add(lo + rng.getrandbits(48))                       # first 0.8 % of the row
+            band.add(lo + (1 << 55) - 1 - rng.getrandbits(48))       # last 0.8 %
+            band.add(lo + rng.getrandbits(49) + (1 << 48))           # 0.8 .. 2.3 %
+            band.add(lo + (1 << 55) - 1 - rng.getrandbits(49) - (1 << 48))
     for _ in range(50 if quick else 1000):
         ds.add(rng.getrandbits(64) | 1 << 63)
         ds.add((rng.getrandbits(64) | 1 << 63 | ((1 << 40) - 1)) & (B - 1))
         ds.add((rng.getrandbits(64) | 1 << 63) & ~((1 << 24) - 1))
-    for d in sorted(ds):
+    for d in sorted(ds | band):
         sc.append({"g": "kern", "op": "krecip", "d": tobytes(d)})
     d1s = sorted(ds)[:: 12 if quick else 3] + [1 << 63, B - 1]
     for d1 in d1s:
